@@ -324,4 +324,8 @@ func init() {
 		Old:    "\tif err := checkProcessesAcyclic(processes); err != nil {\n\t\treturn err\n\t}\n",
 		New:    "\tif false {\n\t\t_ = checkProcessesAcyclic(processes)\n\t}\n",
 		Expect: "cycle-"})
+	addFixture(Fixture{Name: "found-flag-not-reset", Rule: "R-STICKY-FLAG", File: "types/types.go",
+		Old:    "\tfor _, b := range options1 {\n\t\tmatchingBranch, foundMatchingBranch := LookupBranchByLabel(options2, b.Label)\n\t\tif foundMatchingBranch {",
+		New:    "\tfoundMatchingBranch := false\n\tfor _, b := range options1 {\n\t\tvar matchingBranch *Option\n\t\tfor i := range options2 {\n\t\t\tif options2[i].Label == b.Label {\n\t\t\t\tmatchingBranch = &options2[i]\n\t\t\t\tfoundMatchingBranch = true\n\t\t\t\tbreak\n\t\t\t}\n\t\t}\n\t\tif foundMatchingBranch && matchingBranch != nil {",
+		Expect: "types.equalTypeBranch | loop-carried-flag"})
 }
